@@ -1,12 +1,22 @@
--- GENERATED from /tmp/wt_seed by checks/ on every run. Do not edit.
+-- GENERATED from /tmp/wt_s2x by checks/ on every run. Do not edit.
 import TbbVerif.Core.Cint
 namespace TbbVerif.Generated.C06
 open TbbVerif.Cint
+set_option linter.unusedVariables false
 def sortGrainsize : Nat := 500
 def minParallelSize : Nat := 500
 def serialCutoff : Nat := 9
 def pretestPoll : Nat := 64
-def pretestStartOffset : Nat := 1
+def pretestBegin : Nat := 10
 def medianDivisor : Nat := 8
+def probeStart : Nat := 0
+def probeEnd : Nat := 9
+def probeArg1 : Nat := 0
+def probeArg2 : Nat := 1
+def pretestArg1 : Nat := 1
+def pretestArg2 : Nat := 0
+def scanTreatAsStolen (isRight stolen bodyNeLeftSum : Bool) : Bool := (isRight && (stolen || bodyNeLeftSum))
+def scanGuardReadsLeftSum (isRight stolen bodyNeLeftSum : Bool) : Bool := (false || (isRight && (false || (!stolen && true))))
+def reduceSplitsBody (isRight : Bool) (parentRef : Nat) (stolen : Bool) : Bool := (isRight && (parentRef == 2))
 
 end TbbVerif.Generated.C06
